@@ -23,7 +23,13 @@ RULE = ("part 'gfa2': GFA2 graphs with named and anonymous E lines of every kind
         "other end untouched; with origin tracking the copies carry the origin (tags otherwise identical); "
         "factor 1 = identity under every option, factor 0 = removal cascade of the model, negative factor = "
         "ArgumentError with unchanged state; everything not incident to the segment unchanged; closure/symmetry "
-        "invariants. non-trivial = factor >= 2 and the segment has >= 2 links on one end or a containment")
+        "invariants. part 'copy-numbers': apply_copy_numbers() on graphs whose segments carry a copy-number tag 0..3 "
+        "(default or other tag name, default or other origin tag): the number of segments descending from each input "
+        "segment equals its copy number, each is a faithful copy (counts divided), every link joins copies of segments "
+        "that were linked like this with the counts divided by the product of the copy numbers, every input link "
+        "between surviving segments keeps >= 1 copy, containments are copied cn(a) x cn(b) times, edge identifiers stay unique. "
+        "non-trivial = factor >= 2 and the segment has >= 2 links on one end or a containment (copy-numbers: >= 2 segments "
+        "multiplied and a link between two multiplied segments)")
 ASSUMPTIONS = [
     "for the policies auto/equal the statement does not say which end is chosen: the result must be consistent with distribution on L, on R or on no end",
     "for a segment with a self-link the statement does not fix which copy the other side goes to: only 'no foreign exception, invariants, faithful segment copies, bystanders unchanged' is demanded",
@@ -532,6 +538,118 @@ def st_case2(draw):
             "vlevel": gen.choice(r, [1, 1, 2, 3])}
 
 
+# ---------------------------------------------------------------- apply_copy_numbers
+
+def prop_cn(case):
+    """apply_copy_numbers(): every segment multiplied by the copy number in its tag (documented: multiply() with
+    distribute='auto' and origin tracking for each segment).  Consequences of the statement applied segment by
+    segment (validity predicate, no particular end choice or copy name demanded)."""
+    doc, ctag = case["doc"], case["count_tag"]
+    lines = gen.doc_lines(doc)
+    text = "\n".join(lines)
+    recs = [G.Rec.from_plain(l, "gfa1") for l in doc["lines"]]
+    try:
+        g = gfapy.Gfa(lines, version="gfa1", vlevel=case.get("vlevel", 1))
+    except Exception as e:
+        raise Violation("load", "valid graph not loaded: %s: %s\n%s" % (type(e).__name__, str(e)[:300], text), type(e).__name__)
+    kw = {} if ctag == "cn" else {"count_tag": ctag}
+    if case.get("origin_tag"):
+        kw["origin_tag"] = case["origin_tag"]
+    otag = case.get("origin_tag") or "or"
+    ctx = "apply_copy_numbers(%r)\n%s" % (kw, text)
+    try:
+        g.apply_copy_numbers(**kw)
+    except Exception as e:
+        raise Violation("cn-raised", "%s\nraised %s: %s" % (ctx, type(e).__name__, str(e)[:300]), type(e).__name__)
+    ctx += "\n-- after --\n" + str(g)
+    probs = O.invariants(g)
+    if probs:
+        raise Violation("cn-invariant", "%s\n%s" % (ctx, probs[:4]))
+    segs, links, conts, paths, link_list = observed(g)
+    src = {r.pos[0]: r for r in recs if r.rt == "S"}
+    cn = {n: int(r.tag(ctag)[1]) for n, r in src.items()}
+    origin = {}
+    for n, r in segs.items():
+        o = r.tag(otag)
+        origin[n] = o[1] if o else n
+        if origin[n] not in src:
+            raise Violation("cn-origin", "%s\nsegment %s names the origin %r, which is not a segment of the input" % (ctx, n, origin[n]))
+    per = Counter(origin.values())
+    for n, k in cn.items():
+        if per.get(n, 0) != k:
+            raise Violation("cn-count", "%s\nsegment %s has copy number %d but %d segment(s) descend from it" % (ctx, n, k, per.get(n, 0)),
+                            "cn=%d" % min(k, 2))
+    for n, r in segs.items():
+        t = src[origin[n]]
+        k = cn[origin[n]]
+        rtags = [x for x in r.tags if x[0] != otag]
+        if r.pos[1] != t.pos[1] or tagkey(rtags) != tagkey(t.tags, k if k >= 2 else None):
+            raise Violation("cn-copy-differs", "%s\nsegment %s is not a faithful copy of %s (counts / %d): %r vs %r" % (ctx, n, origin[n], k, r.text(), t.text()))
+    def proj(pos):
+        p = list(pos)
+        p[0], p[2] = origin[p[0]], origin[p[2]]
+        return p
+    src_links = {}
+    for r in recs:
+        if r.rt == "L":
+            src_links[linkkey(r.pos, [])[1]] = r
+    seen = Counter()
+    for r in link_list:
+        k = linkkey(proj(r.pos), [])[1]
+        if k not in src_links:
+            raise Violation("cn-link-invented", "%s\nlink %r joins copies of segments that were not linked like this" % (ctx, r.text()))
+        s_ = src_links[k]
+        f = max(cn[s_.pos[0]], 1) * max(cn[s_.pos[2]], 1)
+        if tagkey([t for t in r.tags if t[0] != "ID"]) != tagkey([t for t in s_.tags if t[0] != "ID"], f if f >= 2 else None):
+            raise Violation("cn-link-tags", "%s\nlink %r: tags differ from those of %r with the counts divided by %d" % (ctx, r.text(), s_.text(), f))
+        seen[k] += 1
+    for k, s_ in src_links.items():
+        alive = cn[s_.pos[0]] >= 1 and cn[s_.pos[2]] >= 1
+        if alive and not seen[k]:
+            raise Violation("cn-link-lost", "%s\nno copy of link %r is left although both its segments have copy number >= 1" % (ctx, s_.text()))
+        if not alive and seen[k]:
+            raise Violation("cn-link-of-removed", "%s\na copy of link %r survives a removed segment" % (ctx, s_.text()))
+        if alive and seen[k] > cn[s_.pos[0]] * cn[s_.pos[2]]:
+            raise Violation("cn-link-too-many", "%s\n%d copies of link %r, at most %d possible" % (ctx, seen[k], s_.text(), cn[s_.pos[0]] * cn[s_.pos[2]]))
+    want_c = Counter()
+    for r in recs:
+        if r.rt == "C":
+            want_c[contkey(r.pos, [])[1]] = cn[r.pos[0]] * cn[r.pos[2]]
+    got_c = Counter()
+    for c in g.containments:
+        rec = G.split_line(O.line_text(c), "gfa1")
+        got_c[contkey(proj(rec.pos), [])[1]] += 1
+    if +got_c != +want_c:
+        raise Violation("cn-containments", "%s\ncontainments per source containment %s, expected %s" % (ctx, dict(got_c), dict(want_c)))
+    ids = [str(x.get("ID")) for x in g.dovetails + g.containments if x.get("ID") is not None]
+    if len(ids) != len(set(ids)):
+        raise Violation("cn-edge-ids", "%s\nedge identifiers are not unique: %s" % (ctx, sorted(ids)))
+    mult = [n for n, k in cn.items() if k >= 2]
+    nt = len(mult) >= 2 and any(cn[r.pos[0]] >= 2 and cn[r.pos[2]] >= 2 for r in recs if r.rt == "L")
+    return {"nt": nt, "cn0": any(k == 0 for k in cn.values()), "n_multiplied": min(len(mult), 3)}
+
+
+@st.composite
+def st_case_cn(draw):
+    r = draw(st.randoms(use_true_random=False))
+    doc, target = build(r)
+    ctag = gen.choice(r, ["cn", "cn", "cy"])
+    otag = gen.choice(r, [None, None, "og"])
+    lines = []
+    for l in doc["lines"]:
+        if l[0] == "P":
+            continue
+        if l[0] in "LC" and l[1][0] == l[1][2]:
+            continue  # self-links: which copy the other side goes to is not specified
+        if l[0] == "S":
+            l[2] = [t for t in l[2] if t[0] not in ("cn", "cy", "or", "og")]
+            l[2].append([ctag, "i", str(gen.choice(r, [0, 1, 1, 2, 2, 3]))])
+        lines.append(l)
+    doc["lines"] = lines
+    return {"doc": doc, "count_tag": ctag, "origin_tag": otag, "vlevel": gen.choice(r, [1, 1, 2, 3])}
+
+
 def parts(tier):
-    return [Part("gfa1", prop, strategy=st_case(), n=500 if tier == "quick" else 2500, quick_shards=2),
+    return [Part("copy-numbers", prop_cn, strategy=st_case_cn(), n=300 if tier == "quick" else 1500, quick_shards=2),
+            Part("gfa1", prop, strategy=st_case(), n=500 if tier == "quick" else 2500, quick_shards=2),
             Part("gfa2", prop2, strategy=st_case2(), n=250 if tier == "quick" else 1200, quick_shards=2)]
